@@ -64,6 +64,12 @@ def run(tier):
                 why = "parsing the emitted bytes with the crate does not yield the original value: %s" % vlib.json.dumps(o["parsed"])[:200]
             elif o["bytes2"] != o["bytes"]:
                 why = "re-serializing the parsed value does not reproduce the same bytes"
+            elif o.get("again") != o["bytes"]:
+                why = "serializing the same value a second time, after an unrelated write into a too small buffer failed, gave different bytes (%s...)" % str(o.get("again"))[:60]
+            elif o.get("exact_ok") is False:
+                why = "writing the message into an exactly sized slice does not produce the same bytes"
+            elif o.get("short_err") not in (None, "BufferTooSmall"):
+                why = "writing the message into a slice one byte too short must fail with BufferTooSmall, got %s" % o.get("short_err")
             elif o["direct"] != o["bytes"]:
                 why = "the handshake-level and message-level serializers disagree"
             elif kind in ("record", "from_bytes") and o["hdr"]["len"] != len(o["bytes"]) - 5:
